@@ -1,6 +1,7 @@
 import Driver.GraphJson
 import Driver.Match
 import SynKitModel.GraphMatcherEngine
+import SynKitModel.FindIso
 /-! Driver commands for C07 (`GraphMatcherEngine`, `subgraph_isomorphism`, `graph_isomorphism`). -/
 open Lean SynKit SynKit.Match SynKit.GME
 namespace Driver.GME
@@ -42,11 +43,42 @@ def subCfgOfJson (j : Json) : Except String SubCfg := do
          useFilter := (Driver.getBool j "use_filter").toOption.getD false,
          induced := (Driver.getBool j "induced").toOption.getD true }
 
+
+/-- How an entry point reads absent attributes before comparing: `"find"` = the defaults of
+`find_graph_isomorphism(use_defaults=True)`; an object `{names, defaults, edge_key?, edge_default?}` =
+`d.get(name, default)` for the node labels and, when `edge_key` is given, for that edge attribute; absent / null =
+attributes compared as they are (`d.get(k)`). -/
+def prepOfJson (j : Json) : Except String (LGraph → LGraph) :=
+  match j.getObjVal? "prep" with
+  | .error _ => pure id
+  | .ok .null => pure id
+  | .ok (.str "find") => pure (findPrep true)
+  | .ok p => do
+    let names ← Driver.getStrList p "names"
+    let defaults ← (← Driver.getArr p "defaults").toList.mapM Driver.valOfJson
+    let ek ← Driver.getOptStr p "edge_key"
+    match ek with
+    | none => pure (applyNodeDefaults names defaults)
+    | some k => do
+      let d ← Driver.valOfJson (← p.getObjVal? "edge_default")
+      pure fun g => applyEdgeDefault k d (applyNodeDefaults names defaults g)
+
+def optMapping : Option Mapping → Json
+  | none => Json.null
+  | some m => Driver.mappingToJson m
+
 /-- Commands
 * `c07.history {graphs: [G…], queries: [{op: "iso"|"maps", engine: {node_attrs, edge_attrs, wl1_filter, max_mappings}, a, b}…]}`
   → `{answers: […], pure: […]}` — the answers of the history run against one shared cache, and the cache-free answers;
 * `c07.sub {child, parent, names, defaults, edge_attr, use_filter, induced}` → `{verdict, filter, core}`;
-* `c07.giso {g1, g2, use_defaults}` → bool. -/
+* `c07.giso {g1, g2, use_defaults}` → bool;
+* `c07.findiso {g1, g2, use_defaults}` → `{on, off, fast}`: the mapping (or null) of `find_graph_isomorphism` with the quick
+  invariants on / off, and the verdict of the quick invariants alone (runs the enumerating engine: small inputs only);
+* `c07.certificate {host, pattern, node_keys, edge_keys, hcount?, prep?, mapping, mode: "iso"|"induced"|"mono"}` → bool:
+  the search-free checkers `isIsoB` / `isInducedB` / `isMonoB` on a GIVEN pattern→host mapping (pairs in the pattern's
+  node order);
+* `c07.invariants {host, pattern, node_keys, edge_keys, hcount?, prep?}` → `{iso, contain, wf}`: `isoInvariants`,
+  `containInvariants` (false ⇒ no isomorphism / no monomorphism exists) and well-formedness of both graphs. -/
 def handle : Driver.Handler := fun cmd j =>
   match cmd with
   | "c07.history" => some do
@@ -66,6 +98,30 @@ def handle : Driver.Handler := fun cmd j =>
     let g1 ← Driver.getGraph j "g1"
     let g2 ← Driver.getGraph j "g2"
     pure (toJson (graphIsomorphism ((Driver.getBool j "use_defaults").toOption.getD false) g1 g2))
+  | "c07.findiso" => some do
+    let g1 ← Driver.getGraph j "g1"
+    let g2 ← Driver.getGraph j "g2"
+    let d := (Driver.getBool j "use_defaults").toOption.getD true
+    pure (Json.mkObj [("on", optMapping (findGraphIsomorphism d true g1 g2)),
+      ("off", optMapping (findGraphIsomorphism d false g1 g2)), ("fast", toJson (fastInvariants g1 g2))])
+  | "c07.certificate" => some do
+    let sel ← Driver.Match.selOfJson j
+    let prep ← prepOfJson j
+    let H := prep (← Driver.getGraph j "host")
+    let P := prep (← Driver.getGraph j "pattern")
+    let m ← Driver.mappingOfJson (← j.getObjVal? "mapping")
+    match ← Driver.getStr j "mode" with
+    | "iso" => pure (toJson (isIsoB sel H P m))
+    | "induced" => pure (toJson (isInducedB sel H P m))
+    | "mono" => pure (toJson (isMonoB sel H P m))
+    | s => throw s!"mode {s}"
+  | "c07.invariants" => some do
+    let sel ← Driver.Match.selOfJson j
+    let prep ← prepOfJson j
+    let H := prep (← Driver.getGraph j "host")
+    let P := prep (← Driver.getGraph j "pattern")
+    pure (Json.mkObj [("iso", toJson (isoInvariants sel H P)), ("contain", toJson (containInvariants sel H P)),
+      ("wf", toJson (decide H.WF && decide P.WF))])
   | _ => none
 
 end Driver.GME
